@@ -362,20 +362,23 @@ func buildInfo(yamlText string, env map[string]string, format string) (*nfpm.Inf
 	return nfpm.WithDefaults(info), &cfg, nil
 }
 
-func packageOnce(yamlText string, env map[string]string, format string) ([]byte, *nfpm.Info, error) {
-	info, _, err := buildInfo(yamlText, env, format)
+// packageShared packages one format from an already parsed configuration, the way a caller that builds
+// several formats from one nfpm.yaml does (GoReleaser, a script looping over `-p`): Get -> WithDefaults -> Package
+func packageShared(cfg *nfpm.Config, format string) ([]byte, error) {
+	info, err := cfg.Get(format)
 	if err != nil {
-		return nil, nil, fmt.Errorf("parse: %w", err)
+		return nil, fmt.Errorf("parse: %w", err)
 	}
+	info = nfpm.WithDefaults(info)
 	p, err := nfpm.Get(format)
 	if err != nil {
-		return nil, info, err
+		return nil, err
 	}
 	var w limitedWriter
 	if err := p.Package(info, &w); err != nil {
-		return nil, info, err
+		return nil, err
 	}
-	return w.buf.Bytes(), info, nil
+	return w.buf.Bytes(), nil
 }
 
 func classifyPkgErr(err error) string {
@@ -559,6 +562,8 @@ func runPkgCase(w *caseWriter, id string, d pkgDesc, st *pkgStats, extra func(w 
 	writeDesc(id, d)
 	writeExtraFiles(d.Files)
 	defer removeExtraFiles(d.Files)
+	// one parsed configuration serves all formats of the case, in the order given by the descriptor
+	shared, sharedErr := nfpm.ParseWithEnvMapping(strings.NewReader(d.YAML), func(k string) string { return d.Env[k] })
 	for _, format := range d.Formats {
 		cid := id + "/" + format
 		w.line("pcase %s %s", cid, xs(format))
@@ -603,7 +608,11 @@ func runPkgCase(w *caseWriter, id string, d pkgDesc, st *pkgStats, extra func(w 
 				}
 			}
 		}
-		raw, _, err := packageOnce(d.YAML, d.Env, format)
+		var raw []byte
+		err := sharedErr
+		if err == nil {
+			raw, err = packageShared(&shared, format)
+		}
 		cl := classifyPkgErr(err)
 		st.classes[cl]++
 		st.formats[format]++
@@ -645,6 +654,14 @@ func runPkgCase(w *caseWriter, id string, d pkgDesc, st *pkgStats, extra func(w 
 			st.samples = append(st.samples, id+":\n"+d.YAML)
 		}
 	}
+}
+
+// rotatedFormats: the five formats in a seeded random order (which format is built first matters when
+// one build leaks into another)
+func rotatedFormats(rng *rand.Rand) []string {
+	out := append([]string{}, allFormats...)
+	rng.Shuffle(len(out), func(i, j int) { out[i], out[j] = out[j], out[i] })
+	return out
 }
 
 func marshalConfig(c *nfpm.Config) string {
@@ -707,9 +724,17 @@ func cmdPkg(prop, tier string, seed int64, out, statsOut, replay string) {
 		if tier != "quick" {
 			n = 600
 		}
+		switch prop {
+		case "C08":
+			genC08Matrix(w, st)
+			n = n / 2
+		case "C09":
+			genC09Subsets(w, st, g.rng, true)
+			n = n / 3
+		}
 		for i := 0; i < n; i++ {
 			gen := g.config(i)
-			d := pkgDesc{YAML: marshalConfig(&gen.cfg), Files: gen.files, Formats: allFormats}
+			d := pkgDesc{YAML: marshalConfig(&gen.cfg), Files: gen.files, Formats: rotatedFormats(g.rng)}
 			runPkgCase(w, fmt.Sprintf("g-%d", i), d, st, nil)
 		}
 	}
